@@ -107,6 +107,7 @@ def model_value(model, t):
 def run_obligation(ctx, ob, cfg):
     """explore all paths of the obligation; returns ObResult"""
     res = ObResult(ob)
+    res.ob = ob
     t0 = time.time()
     ex = Explorer(timeout_ms=cfg.get('query_timeout_ms', 60000))
     holder = {}
